@@ -61,7 +61,7 @@ type c05env struct {
 }
 
 func newC05env(base string) *c05env {
-	e := &c05env{last: map[string]uint64{}, q: &verifrt.Quarantine{}}
+	e := &c05env{last: map[string]uint64{}, q: &verifrt.Quarantine{Max: 512}}
 	e.dir, _ = os.MkdirTemp(base, "f")
 	telemetry.Default = telemetry.NewDir(e.dir)
 	e.now = time.Date(2024, 3, 4, 10, 0, 0, 0, time.UTC)
@@ -95,9 +95,14 @@ func (e *c05env) close() {
 // step runs one host call under the monitors; it returns a violation
 // signature/message or "".
 func (e *c05env) step(s c05step) (sig, msg string) {
-	var budget int64 = 2_000_000
+	// a healthy call needs a few hundred loop iterations; the budget is per host
+	// call and generous, but small enough that a loop which re-maps the file on
+	// every iteration is cut off after a few seconds
+	var budget int64 = 150_000
 	if m := e.f.current.Load(); m != nil && m.mapping != nil {
-		budget += 64 * int64(len(m.mapping.Data))
+		if n := int64(len(m.mapping.Data)); n < 1<<22 {
+			budget += 4 * n
+		}
 	}
 	verifrt.SetTickBudget(budget)
 	pv, stack := guarded(func() {
